@@ -97,6 +97,8 @@ class Tr:
         if isinstance(e, ast.Constant):
             if type(e).__name__ in ('Last', 'Latest'):
                 raise Unsupported('latest')
+            if isinstance(e.value, str) and e.value.startswith('$var[') and e.value.endswith(']'):
+                return f'(EVar {self.N.n(e.value[5:-1])})'
             return f'(EConst {self.val(e)})'
         if isinstance(e, ast.Parameter):
             return f'(EParam {self.res_k(e)})'
@@ -272,6 +274,14 @@ class Tr:
             return f'(PLimit {k(s.dataframe)} {self.nat_const(s.limit)} {self.nat_const(s.offset)})'
         if isinstance(s, S.FilterStep):
             return f'(PFilter {k(s.dataframe)} {self.expr(s.query)})'
+        if isinstance(s, S.MultipleSteps):
+            if s.reduce != 'union':
+                raise Unsupported('multiple steps reduce')
+            return f'(PMulti {lst([self.step(x) for x in s.steps])})'
+        if isinstance(s, S.MapReduceStep):
+            if s.reduce != 'union' or s.partition is not None or isinstance(s.step, list):
+                raise Unsupported('map-reduce shape')
+            return f'(PMapReduce {k(s.values)} {self.step(s.step)})'
         raise Unsupported(f'step {type(s).__name__}')
 
 
